@@ -129,8 +129,8 @@ prop(
     technique="exhaustive enumeration of the option rule table + rapidcheck sampling, differential against an executable model of the documented rules, side effects observed at the libc boundary",
     rule=("Cells: per stream type in {0..7, 8, -1, 1000} x {handle, file, path} set/unset; x parent, discard, file-shorthand, path-shorthand; x input in "
           "{none, data+size, data+0, NULL+size}; x (fork, argv) in {(0,valid),(0,NULL),(0,{NULL}),(1,NULL),(1,valid)}. Invalid by the model => REPROC_EINVAL and no pipe/open/fork/"
-          "fileno/allocation between entry and return; valid => not EINVAL, and pipes/null-device opens/path opens (with access mode)/FILE lookups/parent pipe ends exactly as "
-          "the effective redirects demand. Non-trivial: at least two independent rules involved (type set, field set, shorthand, input form, fork form). "
+          "fileno/allocation between entry and return; valid => not EINVAL, at most one fork, and the parent holds a pipe end exactly for the streams whose effective redirect is a pipe (what the child's "
+          "streams really are is C10's identity oracle). Non-trivial: at least two independent rules involved (type set, field set, shorthand, input form, fork form). "
           "Distinct: cell index (sweep cells are unique by construction; random cases are not counted)."),
     essential=dict(quick=["sweep-valid-streams", "sweep-cube", "sweep-plane", "sweep-forms", "random", "model-valid", "model-invalid", "model-unspecified"],
                    thorough=["sweep-valid-streams", "sweep-cube", "sweep-forms", "random", "model-valid", "model-invalid", "model-unspecified"]),
